@@ -777,3 +777,61 @@ pub fn replay_main(check: &mut dyn Check, ctx: &WorkerCtx, path: &str) -> i32 {
 pub fn unique_set<T: Ord + Clone>(xs: &[T]) -> BTreeSet<T> {
     xs.iter().cloned().collect()
 }
+
+
+/// `pdfsim selftest-determinism [n]`: every run's trace hash must be a pure function of
+/// (VERIF_SEED, property, run index): n runs per property are executed with 1, 4 and 16 worker
+/// processes (and a second time with 16) and the hashes compared. Any difference = exit 2.
+pub fn determinism_selftest(ids: &[&str], n: u64, seed: u64) -> i32 {
+    let exe = std::env::current_exe().expect("exe").to_string_lossy().to_string();
+    let mut bad = 0;
+    for id in ids {
+        let mut maps: Vec<BTreeMap<u64, String>> = vec![];
+        for w in [1u64, 4, 16, 16] {
+            let children: Vec<_> = (0..w)
+                .map(|k| {
+                    Command::new(&exe)
+                        .args(["--worker", id, "quick", &seed.to_string(), &k.to_string(), &w.to_string(), &n.to_string()])
+                        .stdin(Stdio::null())
+                        .stdout(Stdio::piped())
+                        .stderr(Stdio::null())
+                        .spawn()
+                })
+                .collect();
+            let mut m = BTreeMap::new();
+            for c in children {
+                if let Ok(out) = c.and_then(|c| c.wait_with_output()) {
+                    for line in String::from_utf8_lossy(&out.stdout).lines() {
+                        if let Some(rest) = line.strip_prefix("DONE ") {
+                            let mut r = rest.split(' ');
+                            if let (Some(i), Some(h)) = (r.next().and_then(|x| x.parse::<u64>().ok()), r.next()) {
+                                m.insert(i, h.to_string());
+                            }
+                        }
+                    }
+                }
+            }
+            maps.push(m);
+        }
+        let complete = maps.iter().all(|m| m.len() as u64 == n);
+        let same = maps.windows(2).all(|p| p[0] == p[1]);
+        let distinct: BTreeSet<&String> = maps[0].values().collect();
+        println!("{}: {} runs x worker counts [1, 4, 16, 16]: complete={} identical={} distinct trace hashes={}", id, n, complete, same, distinct.len());
+        if !complete || !same {
+            for (i, h) in &maps[0] {
+                for (k, m) in maps.iter().enumerate().skip(1) {
+                    if m.get(i) != Some(h) {
+                        println!("  run {}: {} vs {:?} (configuration {})", i, h, m.get(i), k);
+                    }
+                }
+            }
+            bad += 1;
+        }
+    }
+    if bad > 0 {
+        eprintln!("HARNESS-ERROR: nondeterministic runs");
+        2
+    } else {
+        0
+    }
+}
